@@ -337,6 +337,9 @@ func (g *Gen) RawBody() []byte {
 	if g.Level == 0 {
 		n = r.IntN(64)
 	}
+	if n == 0 && g.NoEmptyStrings {
+		n = 1 // a required request body must have a value for the wire validator
+	}
 	b := make([]byte, n)
 	pat := []byte(g.Tag + "|")
 	for i := range b {
